@@ -19,8 +19,8 @@ from sim.core import Precondition, Rng, close, h64
 from fractions import Fraction as F
 
 PROPS = ["C04", "C06"]
-BUDGET = {"C04": {"quick": {"runs": 4000, "wall_cap_s": 100}, "thorough": {"runs": 60000, "wall_cap_s": 1200}},
-          "C06": {"quick": {"runs": 4000, "wall_cap_s": 100}, "thorough": {"runs": 60000, "wall_cap_s": 1200}}}
+BUDGET = {"C04": {"quick": {"runs": 8000, "wall_cap_s": 150}, "thorough": {"runs": 120000, "wall_cap_s": 1800}},
+          "C06": {"quick": {"runs": 8000, "wall_cap_s": 150}, "thorough": {"runs": 120000, "wall_cap_s": 1800}}}
 RULE = {
     "C04": "one case = one seeded history (2-16 steps) of knot insertions on 1-3 interleaved live shapes (method and "
            "operations API, single and multi direction, on existing knots and inside spans), evalpts reads, rejected "
